@@ -1937,9 +1937,9 @@ func c12r7(p *Program, r *Report) {
 			switch {
 			case isT(s + "==0"):
 				return "zero", fv
-			case isT(s+"==1"), isT("0<" + s):
+			case isT(s + "==1"), isT("0<" + s):
 				return "positive", fv
-			case isT(s+"==-1"), isT(s + "<0"):
+			case isT(s + "==-1"), isT(s + "<0"):
 				return "negative", fv
 			case isF(s+"==0") && isF("0<"+s), isF(s+"==0") && isF(s+"==1"):
 				return "negative", fv
